@@ -15,7 +15,7 @@ Failing(r) ==
   \cup Check("C31.receivers", SameBag(o.receivers, Names(m.pkg, m.rcvs)))
   \cup Check("C31.providers", SameBag(o.providers, Names(m.pkg, m.prvs)))
   \cup Check("C31.main-activity", MainOK(m, o.main))
-  \cup Check("C31.sdk-versions", o.minsdk = m.minsdk /\ o.target = m.target)
+  \cup Check("C31.sdk-versions", o.minsdk = m.minsdk /\ o.target = m.target /\ o.maxsdk = m.maxsdk)
   \cup Check("C31.effective-target-sdk", o.effective = EffectiveTarget(m))
   \cup Check("C31.features", SameBag(o.features, m.features))
   \cup Check("C31.libraries", SameBag(o.libraries, m.libraries))
